@@ -13,6 +13,7 @@ import re
 import text_gen as g
 from markup_util import run_cases, impl_expand, canon_cfg
 import text_tree
+import attrtext_gen as atg
 
 HERE = os.path.dirname(os.path.abspath(__file__))
 CORPUS = os.path.join(os.path.dirname(os.path.dirname(HERE)), 'corpus', 'C04')
@@ -348,6 +349,11 @@ def run(ctx):
     # 3. the abbreviation tree itself (tokenize + parse + convert: what C04_text_literal, C04_wrap_* speak about):
     # implementation vs extracted parse_abbr on every case, plus the tree-level oracle for plain text elements
     tree_tie(ctx, cases)
+    # 4. attribute positions at tree level (C04_attr_value_literal, C04_group_bracket_attr): `name[n<value>]` for every
+    # value form over the whole alphabets of the theorem; oracle = the written value against emmet.abbreviation.parse
+    atg.run_stream(ctx, 'C04', 0, 0, 1500 if quick else 40000, kinds={'value', 'textelem'}, n_textelem=700 if quick else 20000)
+    # 5. text on elements that carry attributes, whole pipeline (C04_expand_text_element): <name attr...>TEXT</name>
+    atg.run_expand_stream(ctx, 'C04', 400 if quick else 10000, text_only=True)
     k = 0
     for (abbr, cfg, meta), r in zip(cases, impl):
         if meta.get('pieces') and meta['kind'].startswith(('wrap', 'attr', 'text')) and k < 8 and len(abbr) < 60:
@@ -360,6 +366,10 @@ def replay(ctx, obj):
     if 'abbr' not in rp:
         print('replay names a broken obligation, no input: %s' % str(rp)[:300])
         return 1
+    if rp.get('component') == 'text-tree':
+        return atg.replay(rp)
+    if rp.get('component') == 'C04expand':
+        return atg.replay_expand(rp)
     r = impl_expand(rp['abbr'], rp['config'])
     bad = oracle(rp['abbr'], rp['config'], rp.get('meta'), r)
     print('expand(%r, %s) -> %r' % (rp['abbr'], canon_cfg(rp['config']), r))
